@@ -22,6 +22,36 @@ func checkC14(p *Prog, r *Report) {
 		r.Unk("anchor", "-", "anchor unresolved: (*Template).ExecuteWriter")
 		return
 	}
+	// ExecuteWriter may be a thin wrapper (return tpl.impl(context, writer, …)) around the function that does the
+	// work, e.g. because nested executions share it: the rules are about that function then
+	for hop := 0; hop < 2; hop++ {
+		var only *ssa.Call
+		nCalls := 0
+		for _, b := range ew.Blocks {
+			for _, in := range b.Instrs {
+				if c, ok := in.(*ssa.Call); ok {
+					nCalls++
+					only = c
+				}
+			}
+		}
+		if nCalls != 1 || len(ew.Blocks) != 1 || only.Common().StaticCallee() == nil || !p.InPkg(only.Common().StaticCallee()) {
+			break
+		}
+		passesWriter := false
+		for _, arg := range only.Common().Args {
+			if pa, isParam := arg.(*ssa.Parameter); isParam && pa.Parent() == ew {
+				if iw := lookupStdType(p, "io", "Writer"); iw != nil && types.Identical(pa.Type(), iw) {
+					passesWriter = true
+				}
+			}
+		}
+		rets := returnsOf(ew)
+		if !passesWriter || len(rets) != 1 || len(rets[0].Results) != 1 || rets[0].Results[0] != ssa.Value(only) {
+			break
+		}
+		ew = only.Common().StaticCallee()
+	}
 	ioWriter := lookupStdType(p, "io", "Writer")
 
 	// ---- R-C14-AON
@@ -56,7 +86,7 @@ func checkC14(p *Prog, r *Report) {
 			r.Bad("writer-use", p.Pos(ew.Pos()), "ExecuteWriter never writes to the caller's writer")
 		}
 		for _, u := range real {
-			key := "(*Template).ExecuteWriter:writer-use"
+			key := p.FuncName(ew) + ":writer-use"
 			c, ok := u.(*ssa.Call)
 			callee := ""
 			if ok && c.Common().StaticCallee() != nil {
@@ -212,7 +242,18 @@ func checkC14(p *Prog, r *Report) {
 			continue
 		}
 		for _, c := range callsTo(f, a.ExecCore) {
-			wr := stripConv(c.Common().Args[len(c.Common().Args)-1])
+			// the writer argument of the executor: the one of (an implementation of) TemplateWriter type
+			var wr ssa.Value
+			for i, arg := range c.Common().Args {
+				if i < a.ExecCore.Signature.Params().Len()+1 && i > 0 {
+					if pt := a.ExecCore.Signature.Params().At(i - 1).Type(); types.IsInterface(pt) && types.Identical(pt.Underlying(), a.TemplateWriter) {
+						wr = stripConv(arg)
+					}
+				}
+			}
+			if wr == nil {
+				wr = stripConv(c.Common().Args[len(c.Common().Args)-1])
+			}
 			for _, ret := range returnsOf(f) {
 				if !isNilConst(res(ret, 0)) {
 					if res(ret, 0) == wr {
